@@ -123,7 +123,7 @@ func (r *c05Run) closeAll() {
 	}()
 	select {
 	case <-done:
-	case <-time.After(20 * time.Second):
+	case <-time.After(8 * time.Second):
 		// never let cleanup after an aborted execution block the worker
 	}
 }
@@ -400,6 +400,34 @@ func c05Plan(thorough bool) []c05Scenario {
 			add(c05Scenarios(be, "park", 2, 2, offs, assign), 0, 0)
 			if thorough {
 				add(c05Scenarios(be, "park", 3, 1, offs, assign), 0, 0)
+			}
+		}
+	}
+	// --- large values (around 64 KiB, 300 KB, 1 MiB): read-your-writes programs only
+	{
+		big := map[string][]int{
+			"sqlite":   {4, 5, 6, 8},
+			"etag":     {4, 5, 6, 8},
+			"dynamodb": {4, 5, 6, 7}, // DynamoDB items are limited to 400 KB (the fake enforces it)
+		}
+		if thorough {
+			big["sqlite"] = []int{4, 5, 6, 7, 8}
+			big["etag"] = []int{4, 5, 6, 7, 8}
+		}
+		for _, mode := range []string{"shared", "reopen", "proc"} {
+			for _, v := range big["sqlite"] {
+				add(c05BigValueScenarios("sqlite", mode, v), 0, 0)
+			}
+		}
+		for _, be := range []string{"dynamodb", "etag"} {
+			for _, v := range big[be] {
+				for _, sc := range c05BigValueScenarios(be, "park", v) {
+					f := 0
+					if len(sc.Progs) == 1 || thorough {
+						f = 1
+					}
+					add([]c05Scenario{sc}, f, 0)
+				}
 			}
 		}
 	}
